@@ -108,3 +108,14 @@ package document
 //@              secInfosSubset(doc.Mf.CardAccess.SecurityInfos.RawData, doc.Mf.Lds1.Dg14.SecInfos.RawData)
 //@   assigns nothing
 //@   safety all
+
+
+// ---------------------------------------------------------------- file constructors used by the protocol packages
+// NewCardSecurity parses a CMS SignedData (encoding/asn1: outside the modelled subset). Trusted: an absent / empty file
+// gives (nil, nil); a returned object has its security infos decoded.
+//@ func NewCardSecurity
+//@   trusted
+//@   ensures len(data) < 1 ==> out == nil && err == nil
+//@   ensures out != nil ==> err == nil && out.SecurityInfos != nil && out.RawData === data
+//@   ensures fresh(out)
+//@   assigns nothing
